@@ -28,6 +28,8 @@ pub fn def() -> PropDef {
 pub enum Req {
     Parse { dsl: bool },
     ParseInvalid(u8),
+    /// valid JSON or DSL rendering of the ledger with byte edits (pos, op, byte): any single answer is fine
+    Mutated { tool: u8, json_input: bool, edits: Vec<(u16, u8, u8)> },
     Calc { year: Option<i32>, json_input: bool },
     CalcUncovered,
     CalcMissingRate,
@@ -64,6 +66,7 @@ fn arb_req() -> BoxedStrategy<Req> {
     prop_oneof![
         4 => any::<bool>().prop_map(|dsl| Req::Parse { dsl }),
         2 => (0u8..4).prop_map(Req::ParseInvalid),
+        5 => (0u8..4, any::<bool>(), proptest::collection::vec((any::<u16>(), 0u8..3, any::<u8>()), 1..4)).prop_map(|(tool, json_input, edits)| Req::Mutated { tool, json_input, edits }),
         6 => (prop_oneof![2 => Just(None), 1 => (2014i32..2026).prop_map(Some)], any::<bool>()).prop_map(|(year, json_input)| Req::Calc { year, json_input }),
         2 => Just(Req::CalcUncovered),
         1 => Just(Req::CalcMissingRate),
@@ -130,6 +133,33 @@ fn build(s: &Session, order: &[usize]) -> Vec<Built> {
                     _ => "2024-13-45 BUY AAA 1 @ 1".to_string(),
                 };
                 (tool_call(id, "parse_transactions", json!({"transactions": bad})), Some(false), false)
+            }
+            Req::Mutated { tool, json_input, edits } => {
+                const BYTES: &[u8] = b"\n\r\t \"{}[],:\\#@.-09AZaz\x00\x1f";
+                let mut bytes = if *json_input { jtxt.clone() } else { dsl.clone() }.into_bytes();
+                for (pos, op, b) in edits {
+                    if bytes.is_empty() {
+                        break;
+                    }
+                    let p = (*pos as usize * bytes.len()) >> 16;
+                    let byte = BYTES[*b as usize % BYTES.len()];
+                    match op % 3 {
+                        0 => bytes.insert(p, byte),
+                        1 => {
+                            bytes.remove(p);
+                        }
+                        _ => bytes[p] = byte,
+                    }
+                }
+                let text = String::from_utf8_lossy(&bytes).to_string();
+                let name = ["parse_transactions", "calculate_report", "convert_to_dsl", "explain_matching"][*tool as usize % 4];
+                let args = if name == "explain_matching" { json!({"transactions": text, "disposal_date": "2020-01-01", "ticker": "AAA"}) } else { json!({"transactions": text}) };
+                // F7 can be reached by an edit that creates a huge number: predicted through the library
+                let f7 = match cgt_core::parser::parse_file(&text) {
+                    Ok(txs) if !text.trim_start().starts_with('[') => matches!(tool::guarded(|| cgt_core::calculator::calculate(&txs, None, Some(fx), &cfg)), Err(p) if p.is_decimal_overflow()),
+                    _ => false,
+                } || serde_json::from_str::<Vec<cgt_core::Transaction>>(text.trim()).ok().map(|txs| matches!(tool::guarded(|| cgt_core::calculator::calculate(&txs, None, Some(fx), &cfg)), Err(p) if p.is_decimal_overflow())).unwrap_or(false);
+                (tool_call(id, name, args), None, f7 && name != "parse_transactions" && name != "convert_to_dsl")
             }
             Req::Calc { year, json_input } => {
                 let input = if *json_input { jtxt.clone() } else { dsl.clone() };
@@ -248,7 +278,7 @@ fn run_session(built: &[Built], pipelined: bool) -> RunOut {
     if pipelined {
         let msgs: Vec<Value> = built.iter().map(|b| b.msg.clone()).collect();
         m.send_batch(&msgs);
-        let deadline = Instant::now() + Duration::from_secs(90);
+        let deadline = Instant::now() + Duration::from_secs(25);
         while expected_ids.iter().any(|id| !got.contains_key(id)) && Instant::now() < deadline {
             if let Some(v) = m.recv(Duration::from_millis(500)) {
                 take(v, &mut got, &mut stray);
@@ -260,7 +290,7 @@ fn run_session(built: &[Built], pipelined: bool) -> RunOut {
         for b in built {
             m.send(&b.msg);
             let Some(id) = b.id else { continue };
-            let wait = if b.expect_unanswered_f7 { Duration::from_millis(1500) } else { Duration::from_secs(60) };
+            let wait = if b.expect_unanswered_f7 { Duration::from_millis(1500) } else { Duration::from_secs(15) };
             let deadline = Instant::now() + wait;
             while !got.contains_key(&id) && Instant::now() < deadline {
                 if let Some(v) = m.recv(Duration::from_millis(200)) {
@@ -386,12 +416,13 @@ fn judge(built: &[Built], out: &RunOut, dsl: &str, known_f7: &mut bool, label: &
                 if b.expect_unanswered_f7 {
                     // attribute to F7 only if the library really panics with the overflow signature
                     let txt = b.msg.pointer("/params/arguments/transactions").and_then(|x| x.as_str()).unwrap_or("");
-                    let reproduces = match cgt_core::parser::parse_file(txt) {
-                        Ok(txs) => {
+                    let parsed: Option<Vec<cgt_core::Transaction>> = if txt.trim_start().starts_with('[') { serde_json::from_str(txt.trim()).ok() } else { cgt_core::parser::parse_file(txt.trim()).ok() };
+                    let reproduces = match parsed {
+                        Some(txs) => {
                             let cfg = cgt_core::Config::embedded().unwrap_or_default();
                             matches!(tool::guarded(|| cgt_core::calculator::calculate(&txs, None, Some(crate::props::c15::fx()), &cfg)), Err(p) if p.is_decimal_overflow())
                         }
-                        Err(_) => false,
+                        None => false,
                     };
                     if reproduces {
                         *known_f7 = true;
@@ -637,7 +668,7 @@ fn run(ctx: &Ctx) {
     // sessions are process-bound; each case starts two servers
     let threads_note = "each case runs the session twice (pipelined/sequential as generated, then reversed one at a time)";
     let _ = threads_note;
-    ctx.shrink_iters.store(40, std::sync::atomic::Ordering::Relaxed);
+    ctx.shrink_iters.store(10, std::sync::atomic::Ordering::Relaxed);
     if !ctx.run_prop("sessions", RULE, ctx.cases(5, 600), strat, check) {
         return;
     }
